@@ -131,3 +131,34 @@ Proof. intros. unfold ex2_seal. simpl. reflexivity. Qed.
 Example ex2_ctr_half_unused : forall n ad,
   [1; 2] <> [1; 3] /\ ex2_seal [1; 2] n ad [] = ex2_seal [1; 3] n ad [].
 Proof. intros. split; [discriminate|reflexivity]. Qed.
+
+(* A small computable cipher for witnesses by computation: the tag is one keyed
+   checksum byte (never 0) followed by 15 zero bytes, the plaintext follows in
+   clear.  Open succeeds only on Seal's own output. *)
+Definition bsum (l : bytes) : Z := fold_right Z.add 0 l.
+Definition adsum (ad : option bytes) : Z := match ad with None => 0 | Some x => 1 + bsum x end.
+Definition tag3 (k n : bytes) (ad : option bytes) : Z := 1 + (bsum k * 7 + bsum n * 3 + adsum ad) mod 251.
+Definition ex3_seal (k n : bytes) (ad : option bytes) (p : bytes) : bytes :=
+  tag3 k n ad :: repeat 0 15 ++ p.
+Definition ex3_open (k n : bytes) (ad : option bytes) (c : bytes) : option bytes :=
+  match c with
+  | t :: r => if (t =? tag3 k n ad) && bytes_eqb (firstn 15 r) (repeat 0 15) && (15 <=? length r)%nat
+              then Some (skipn 15 r) else None
+  | [] => None
+  end.
+
+Example ex3_open_seal : forall k n ad p, ex3_open k n ad (ex3_seal k n ad p) = Some p.
+Proof.
+  intros. unfold ex3_open, ex3_seal. rewrite Z.eqb_refl.
+  change (firstn 15 (repeat 0 15 ++ p)) with (repeat 0 15). rewrite bytes_eqb_refl.
+  rewrite app_length, repeat_length. cbn [Nat.leb plus andb]. reflexivity.
+Qed.
+
+Example ex3_open_only_seal : forall k n ad c p, ex3_open k n ad c = Some p -> c = ex3_seal k n ad p.
+Proof.
+  intros k n ad c p H. unfold ex3_open in H. destruct c as [|t r]; [discriminate|].
+  destruct ((t =? tag3 k n ad) && bytes_eqb (firstn 15 r) (repeat 0 15) && (15 <=? length r)%nat) eqn:E; [|discriminate].
+  apply andb_true_iff in E. destruct E as [E E3]. apply andb_true_iff in E. destruct E as [E1 E2].
+  inversion H; subst p. apply Z.eqb_eq in E1. apply bytes_eqb_true in E2.
+  unfold ex3_seal. rewrite E1. f_equal. rewrite <- E2. symmetry. apply firstn_skipn.
+Qed.
